@@ -264,6 +264,7 @@ inductive Op
   | changePw (addr old new salt : Nat)
   | changeScheme (addr scheme : Nat)
   | reload
+  | openOther (prm : Nat)   -- another wallet file (scrypt parameters `prm`) is opened in the same process
 deriving Repr
 
 def W.step (w : W cr) : Op → Err × W cr
@@ -275,6 +276,9 @@ def W.step (w : W cr) : Op → Err × W cr
   | .changePw a o n sa => w.changePassword a o n sa
   | .changeScheme a s => w.changeScheme a s
   | .reload => (.ok, w.reload)
+  -- `NewClientImpl(otherPath)`: `NewWalletData` gives every wallet its own fresh `Scrypt` object
+  -- (`keypair.GetScryptParameters()`), and `Load` decodes into that object only: nothing of `w` is shared
+  | .openOther _ => (.ok, w)
 
 def W.run (w : W cr) : List Op → W cr
   | [] => w
